@@ -9,8 +9,8 @@ def scope(ctx):
     return (3, 500, 12) if ctx.quick else (3, 4000, 25)
 
 
-def common(ctx, props_target):
-    built = prepare(ctx, GENS, [props_target, "Corr/Eval.vo"])
+def common(ctx, props_target, extra_targets=(), extra_gens=()):
+    built = prepare(ctx, GENS + list(extra_gens), [props_target, "Corr/Eval.vo", *extra_targets])
     mx, nr, ml = scope(ctx)
     cases = evalcorr.corpus(ctx, mx, nr, ml)
     return built, cases
